@@ -111,6 +111,12 @@ def classify(case, out):
     prev = None
     for i, st in enumerate(out["steps"]):
         nm = st["arrive"]
+        # P10: a block produced by the node itself that does not extend the current best block is stale: never stored
+        if st.get("own") and not preds and nm in out["blocks"]:
+            before = prev["best"] if prev is not None else out["genesis"]["id"]
+            was_stored = prev["stored"][nm] if prev is not None else False
+            if out["blocks"][nm]["prev"] != before and not was_stored and st["stored"][nm]:
+                return "C05:stale-produced-block-stored", "own block %s does not extend the best block but is stored at step %d (res %s)" % (nm, i, st["res"])
         transient = st["res"] == "err" and (st.get("pre") == "ts" or "becomes stale" in st["err"])
         if transient and not preds:
             if st["bad"][nm]:
